@@ -989,7 +989,89 @@ func c18Purity(c *bx.Ctx) {
 	}
 }
 
+// c18SubEncoders: the exported sub-structure encoders are operations too: a result handed to the
+// caller must not change when another value is encoded afterwards, and repeating a call returns
+// identical bytes.
+func c18SubEncoders(c *bx.Ctx) {
+	c.Space("sub-structure-encoders")
+	type enc struct {
+		name string
+		mk   func(k int) func() ([]byte, error)
+	}
+	encs := []enc{
+		{"Header", func(k int) func() ([]byte, error) {
+			h := rtcp.Header{Padding: k%2 == 1, Count: uint8(3 + 7*k), Type: rtcp.PacketType(200 + k), Length: uint16(0x1234 + 0x1111*k)}
+			return h.Marshal
+		}},
+		{"ReceptionReport", func(k int) func() ([]byte, error) {
+			r := rtcp.ReceptionReport{SSRC: 0x80000001 + uint32(k)<<8, FractionLost: uint8(0x11 * (k + 1)), TotalLost: uint32(0x10203 * (k + 1)), LastSequenceNumber: uint32(k) + 7, Jitter: 9, LastSenderReport: 10, Delay: 11}
+			return r.Marshal
+		}},
+		{"SourceDescriptionChunk", func(k int) func() ([]byte, error) {
+			ch := rtcp.SourceDescriptionChunk{Source: 0x90000000 + uint32(k), Items: []rtcp.SourceDescriptionItem{{Type: rtcp.SDESCNAME, Text: fmt.Sprintf("user-%d@example.org", k)}, {Type: rtcp.SDESTool, Text: fmt.Sprintf("tool/%d", k*k)}}}
+			return ch.Marshal
+		}},
+		{"SourceDescriptionItem", func(k int) func() ([]byte, error) {
+			it := rtcp.SourceDescriptionItem{Type: rtcp.SDESType(1 + k), Text: fmt.Sprintf("text-%d-%d", k, k*31)}
+			return it.Marshal
+		}},
+		{"RunLengthChunk", func(k int) func() ([]byte, error) {
+			r := rtcp.RunLengthChunk{Type: rtcp.TypeTCCRunLengthChunk, PacketStatusSymbol: uint16(k % 3), RunLength: uint16(100 + 1000*k)}
+			return r.Marshal
+		}},
+		{"StatusVectorChunk", func(k int) func() ([]byte, error) {
+			syms := []uint16{1, 0, 1, 1, 0, 0, 1}
+			if k%2 == 1 {
+				syms = []uint16{2, 1, 0, 0, 2, 1, 1}
+			}
+			v := rtcp.StatusVectorChunk{Type: rtcp.TypeTCCStatusVectorChunk, SymbolSize: rtcp.TypeTCCSymbolSizeTwoBit, SymbolList: syms}
+			return v.Marshal
+		}},
+		{"RecvDelta", func(k int) func() ([]byte, error) {
+			d := rtcp.RecvDelta{Type: rtcp.TypeTCCPacketReceivedLargeDelta, Delta: int64(250 * (1000 + 77*k))}
+			return d.Marshal
+		}},
+	}
+	for _, e := range encs {
+		if !c.Mine() {
+			continue
+		}
+		a, b := e.mk(0), e.mk(1)
+		for depth := 1; depth <= 3; depth++ {
+			// a ; (b ; a)^depth : every earlier result must stay what it was
+			first, err := a()
+			c.T(1)
+			if err != nil {
+				break
+			}
+			keep := append([]byte{}, first...)
+			ok := true
+			for i := 0; i < depth && ok; i++ {
+				rb, _ := b()
+				keepB := append([]byte{}, rb...)
+				ra, _ := a()
+				c.T(2)
+				switch {
+				case !bytes.Equal(first, keep):
+					c.Report(keyJoin("C18/sub-encoder", e.name, "earlier-result-overwritten"), e.name+".Marshal: a result returned earlier changes when another value is encoded", bx.Replay{Entry: e.name + ".Marshal", Ops: "a; b; a", Expected: fmt.Sprintf("%x", keep), Observed: fmt.Sprintf("%x", first)})
+					ok = false
+				case !bytes.Equal(ra, keep):
+					c.Report(keyJoin("C18/sub-encoder", e.name, "result-depends-on-history"), e.name+".Marshal returns different bytes after another value was encoded", bx.Replay{Entry: e.name + ".Marshal", Ops: "a; b; a", Expected: fmt.Sprintf("%x", keep), Observed: fmt.Sprintf("%x", ra)})
+					ok = false
+				case !bytes.Equal(rb, keepB):
+					c.Report(keyJoin("C18/sub-encoder", e.name, "earlier-result-overwritten"), e.name+".Marshal: the previous result was overwritten", bx.Replay{Entry: e.name + ".Marshal", Ops: "b; a", Expected: fmt.Sprintf("%x", keepB), Observed: fmt.Sprintf("%x", rb)})
+					ok = false
+				}
+			}
+			if ok {
+				c.NT()
+			}
+		}
+	}
+}
+
 func runC18(c *bx.Ctx) {
+	c18SubEncoders(c)
 	c18Purity(c)
 	c18Histories(c)
 	c18Schedules(c)
